@@ -42,7 +42,7 @@ def leaves(e: BaseException) -> list[BaseException]:
 
 HANDLERS = ("none", "true", "false", "retnone")
 PLACES = ("F", "deeper", "task", "service", "after")
-BODIES = ("ret", "raise", "forever", "instant", "ret-td", "raise-td", "hs")  # hs: calls task_status.started() only after a gate
+BODIES = ("ret", "raise", "forever", "instant", "ret-td", "raise-td", "hs", "spawn-late")  # hs: calls task_status.started() only after a gate
 
 
 class C09(E1Check):
@@ -72,6 +72,8 @@ class C09(E1Check):
                         continue
                     if body == "hs" and (how != "start_task" or place not in ("F", "task")):
                         continue
+                    if body == "spawn-late" and (how == "soon-cancel" or place != "F"):
+                        continue  # spawn-late: at its gate the task spawns one more task (possibly while the owner is being torn down)
                     spawn_opts.append({"how": how, "place": place, "body": body})
         for fctx in ("root", "nested"):
             for handler in HANDLERS:
@@ -107,6 +109,10 @@ class C09(E1Check):
                         other = b if a["body"] in td_kinds else a
                         mine = a if a["body"] in td_kinds else b
                         if other["body"] not in ("instant", "ret") or other["place"] != "F" or mine["place"] != "F" or other["how"] != "soon" or mine["how"] == "soon-cancel":
+                            continue
+                    if "spawn-late" in (a["body"], b["body"]) and (tier == "quick" or a["body"] == b["body"]):
+                        other = b if a["body"] == "spawn-late" else a
+                        if other["body"] not in ("instant", "ret") or other["how"] != "soon" or other["place"] != "F":
                             continue
                     if tier == "quick" and "hs" in (a["body"], b["body"]):
                         # the handshake window next to simple partners
@@ -158,7 +164,7 @@ class C09(E1Check):
         log = env.log
         st = env.data["st"] = {"spawned": {}, "body_ended": set(), "waited": set(), "raised": {}, "handler_calls": [],
                                "factory": None, "failed_spawns": set(), "hfail": [], "helpers": {}, "own_td_pending": set(), "called_in": {}, "body_ctx": {},
-                               "live": set()}
+                               "live": set(), "late_live": set()}
         spawns = program["spawns"]
 
         def _handler(exc: Exception) -> Any:
@@ -188,14 +194,16 @@ class C09(E1Check):
                 return
             byh = {id(h): i for i, h in st["spawned"].items()}
             got = set()
-            for h in cur:
+            snapshot = list(cur)
+            cur.clear()  # the returned set is the caller's: emptying it must not change what the factory knows
+            for h in snapshot:
                 if id(h) in st["helpers"]:
                     continue
                 got.add(byh.get(id(h), "unknown"))
             pending = set(st.get("pending_spawn", ()))
             must = {i for i in st["spawned"] if i not in st["body_ended"] or i in st["own_td_pending"]}
             may = {i for i in st["spawned"] if i not in st["waited"]} | pending
-            n_unknown = sum(1 for h in cur if id(h) not in st["helpers"] and id(h) not in byh)
+            n_unknown = sum(1 for h in snapshot if id(h) not in st["helpers"] and id(h) not in byh)
             # a task whose body is running while start_task() has not returned yet (start-up handshake) is a spawned task that has
             # not finished: its handle - not yet known to the harness - must be listed
             live_pending = {i for i in pending if i in st["live"]}
@@ -258,6 +266,28 @@ class C09(E1Check):
                         log("started()", i)
                         task_status.started(("sv", i))
                         await env.gate(f"body{i}")
+                    elif kind == "spawn-late":
+                        await env.gate(f"body{i}")
+                        # (the gate may be opened after the owning context has begun its teardown: the factory still accepts the
+                        # task and the teardown waits for it as for any other)
+                        async def late_child(i: int = i) -> None:
+                            log("late+", i)
+                            st["late_live"].add(i)
+                            try:
+                                await env.gate(f"late{i}")
+                            except BaseException as e:
+                                log("late!", i, type(e).__name__)
+                                raise
+                            finally:
+                                st["late_live"].discard(i)
+                                log("late-", i)
+
+                        try:
+                            hh2 = st["factory"].start_task_soon(late_child, f"late{i}")
+                            st["helpers"][id(hh2)] = hh2
+                            log("late-spawned", i)
+                        except BaseException as e:  # noqa: BLE001 - refused (the factory has already shut down): nothing to wait for
+                            log("late-refused", i, type(e).__name__)
                     elif kind in ("ret", "ret-td"):
                         await env.gate(f"body{i}")
                     elif kind in ("raise", "raise-td"):
@@ -551,6 +581,16 @@ class C09(E1Check):
                 fail("cancel", f"task {i} was cancelled through its handle right after start_task_soon() but kept running until its gate was opened")
             if not any(ev[0] == "body!" and ev[1] == i and ev[2] == "CancelledError" for ev in tr) and any(ev[0] == "body+" and ev[1] == i for ev in tr):
                 fail("cancel", f"task {i} was cancelled through its handle right after start_task_soon() but its body never saw a cancellation")
+        # a task spawned by a running task - also while the owner is being torn down - is waited for like any other, never cancelled
+        for ev in tr:
+            if ev[0] == "late!" and ev[2] == "CancelledError":
+                fail("teardown-wait", f"the task spawned late by task {ev[1]} was cancelled (nobody cancelled it through its handle)")
+        for ev in tr:
+            if ev[0] == "late-spawned":
+                fli = next((j for j, e2 in enumerate(tr) if e2[0] == ("f-left" if program["fctx"] == "nested" else "root-left")), None)
+                le = next((j for j, e2 in enumerate(tr) if e2[0] == "late-" and e2[1] == ev[1]), None)
+                if fli is not None and (le is None or le > fli):
+                    fail("teardown-wait", f"the factory's owning context was left although the task spawned late by task {ev[1]} had not finished")
         # teardown waits for all bodies
         fl = next((j for j, ev in enumerate(tr) if ev[0] == ("f-left" if program["fctx"] == "nested" else "root-left")), None)
         if fl is not None:
